@@ -49,8 +49,10 @@ Next == UNCHANGED c
 \* "created": a session cookie was handed out / the request was served as authenticated from the failed exchange;
 \* "extended": the stored session carries tokens from the failed exchange
 CaseRec == [fam |-> "idpfaults", in |-> c,
-            req |-> (IF Tolerated(c.flow, c.call, c.kind) THEN [panic |-> FALSE, nextOK |-> TRUE]
-                     ELSE [created |-> FALSE, extended |-> FALSE, panic |-> FALSE, nextOK |-> TRUE]
+            \* pkceOK (C05 under faults): every redemption attempt the provider saw - answered with the fault, or repeated by the proxy -
+            \* carried the verifier of the challenge that login's authorization request carried (S256 is configured throughout)
+            req |-> (IF Tolerated(c.flow, c.call, c.kind) THEN [panic |-> FALSE, nextOK |-> TRUE, pkceOK |-> TRUE]
+                     ELSE [created |-> FALSE, extended |-> FALSE, panic |-> FALSE, nextOK |-> TRUE, pkceOK |-> TRUE]
                           \* (control against vacuity: with the keys available the same session IS re-validated and served)
                           @@ (IF c.flow = "validate" THEN [controlServed |-> TRUE] ELSE <<>>))]
 EmitVocab == JsonSerialize("vocab.json", Vocab)
